@@ -22,6 +22,7 @@ type c01level struct {
 	group  bool // group_by_header x-grp
 	parent int  // index, -1 for the root
 	url    string
+	pct    int // > 0: declared as allocation_percentage of its parent (max and window derive from it)
 }
 
 type c01state struct {
@@ -99,6 +100,26 @@ func runC01(s *kernel.Sim) {
 			id: fmt.Sprintf("q%d", i), max: int64(tp.Range(1, 4)), win: time.Duration(tp.Range(1, 3)) * unit,
 			group: tp.Chance(1, 3), parent: i - 1, url: fmt.Sprintf("a.com/l%d", i),
 		}
+	}
+	// one run in five: two sibling internal limits, each declared as a percentage
+	// of the same parent (their limits are that share of the parent's maximum, their
+	// window is the parent's); shares are chosen so that they are whole numbers
+	pctMode := tp.Chance(1, 5)
+	if pctMode {
+		rootMax := int64([]int{4, 8, 10, 20}[tp.Choose(4)])
+		win := time.Duration(tp.Range(1, 2)) * time.Minute
+		levels = []c01level{{id: "q0", max: rootMax, win: win, parent: -1, url: "a.com/l0"}}
+		for i := 1; i <= 2; i++ {
+			var ok []int
+			for _, p := range []int{25, 50, 75, 100, 10} {
+				if rootMax*int64(p)%100 == 0 {
+					ok = append(ok, p)
+				}
+			}
+			p := ok[tp.Choose(len(ok))]
+			levels = append(levels, c01level{id: fmt.Sprintf("q%d", i), max: rootMax * int64(p) / 100, win: win, parent: 0, url: fmt.Sprintf("a.com/l%d", i), pct: p})
+		}
+		nLevels = 3
 	}
 	nOps := tp.Range(5, 40)
 	burstP := tp.Choose(4) // 0: never
@@ -424,6 +445,10 @@ func c01QuotaYAML(levels []c01level) string {
 			fmt.Fprintf(&b, "%s  parent_id: %s\n", indent, parent)
 		}
 		fmt.Fprintf(&b, "%s  filter:\n%s    url: %s\n", indent, indent, l.url)
+		if l.pct > 0 {
+			fmt.Fprintf(&b, "%s  strategy:\n%s    allocation_percentage: %d\n", indent, indent, l.pct)
+			return
+		}
 		unit, n := "second", int64(l.win/time.Second)
 		if l.win%time.Minute == 0 {
 			unit, n = "minute", int64(l.win/time.Minute)
@@ -439,7 +464,7 @@ func c01QuotaYAML(levels []c01level) string {
 	if len(levels) > 1 {
 		b.WriteString("internal_limits:\n")
 		for i := 1; i < len(levels); i++ {
-			wr("  ", levels[i], levels[i-1].id)
+			wr("  ", levels[i], levels[levels[i].parent].id)
 		}
 	}
 	return b.String()
